@@ -172,7 +172,8 @@ pub fn run(a: &Args) {
         r.emit();
         return;
     }
-    for p in b64() {
+    let ptrs = b64_wide();
+    for p in ptrs {
         guarded(&mut r, "C15|tss_segment|unexpected-panic", || format!("tssdesc {:#x}", p), |r| tss_desc_case(r, p));
     }
     // real statics, with arbitrary contents (the descriptor depends on the address only)
@@ -211,6 +212,9 @@ pub fn run(a: &Args) {
     r.nontrivial = r.evals;
     r.sample("tssdesc 0xffff800001000000 (base split over bits 16-39, 56-63 and the high dword)".into());
     r.sample("dpl 0xffffffffffffffff 2 true".into());
+    {
+        r.note("pointer alphabet = every u64 with <=3 set bits, <=3 clear bits, every contiguous run of ones (~90k values)");
+    }
     r.note("the descriptor is a pure function of the pointer: B64 covers every single address bit alone and every all-but-one pattern");
     r.emit();
 }
